@@ -1286,3 +1286,79 @@ func c12integerLiteralByParseInt(c *an.Ctx) {
 	}
 	g.Precedes(r, pi, ret, an.OrderOpt{Success: true, Label: "ParseInt(success) ≺ return IntegerLiteral"})
 }
+
+func init() {
+	old := All["C12"].Run
+	All["C12"].Run = func(c *an.Ctx) {
+		old(c)
+		c12floatsPrintedPlain(c)
+	}
+	All["C12"].Rules += " R13"
+	addLevel("C12", "A float in a printed statement or condition is written in plain decimal digits (strconv.FormatFloat 'f'): the InfluxQL scanner has no exponent syntax, so %v / 'g' / 'e' output is re-parsed as something else.")
+}
+
+// c12floatsPrintedPlain — C12.R13.  The scanner reads digits[.digits] only.  fmt's %v (and the 'g'
+// and 'e' formats) switch to exponent notation below 1e-4 and from 1e21 on; `1e-05` is re-parsed as
+// a duration, a minus and an integer.  In the printers of the AST every float64 is therefore
+// formatted by strconv.FormatFloat(…, 'f', …).
+func c12floatsPrintedPlain(c *an.Ctx) {
+	r := c.Rule("C12.R13", "K-CONVLINT", qlPkg+": String/RenderBytes methods format float64 values with strconv.FormatFloat 'f' only")
+	pkg := c.P.ByPath[an.Mod+qlPkg]
+	if pkg == nil {
+		r.Unresolved(qlPkg)
+		return
+	}
+	info := pkg.TypesInfo
+	n, floats := 0, 0
+	isFloat := func(e ast.Expr) bool {
+		t := info.TypeOf(e)
+		if t == nil {
+			return false
+		}
+		b, ok := t.Underlying().(*types.Basic)
+		return ok && (b.Kind() == types.Float64 || b.Kind() == types.Float32)
+	}
+	for _, file := range pkg.Syntax {
+		if strings.HasSuffix(c.P.Fset.Position(file.Pos()).Filename, "_test.go") {
+			continue
+		}
+		for _, d := range file.Decls {
+			fd, ok := d.(*ast.FuncDecl)
+			if !ok || fd.Recv == nil || fd.Body == nil || (fd.Name.Name != "String" && fd.Name.Name != "RenderBytes") {
+				continue
+			}
+			n++
+			ast.Inspect(fd.Body, func(m ast.Node) bool {
+				ce, ok := m.(*ast.CallExpr)
+				if !ok {
+					return true
+				}
+				cal := an.Callee(info, ce)
+				if cal == nil || cal.Pkg() == nil {
+					return true
+				}
+				switch {
+				case cal.Pkg().Path() == "fmt" && (strings.HasPrefix(cal.Name(), "Sprint") || strings.HasPrefix(cal.Name(), "Fprint")):
+					for _, a := range ce.Args {
+						if isFloat(a) {
+							floats++
+							r.Fail(fd.Name.Name+" of "+types.ExprString(fd.Recv.List[0].Type)+": float through fmt", c.P.Pos(ce.Pos()), "%s formats the float64 %s with fmt.%s: values below 1e-4 or from 1e21 on are printed with an exponent, which the InfluxQL scanner does not read back as the same number", fd.Name.Name, types.ExprString(a), cal.Name())
+						}
+					}
+				case cal.Pkg().Path() == "strconv" && cal.Name() == "FormatFloat" && len(ce.Args) == 4:
+					floats++
+					tv, ok := info.Types[ce.Args[1]]
+					if !ok || tv.Value == nil || tv.Value.String() != "102" {
+						r.Fail(fd.Name.Name+" of "+types.ExprString(fd.Recv.List[0].Type)+": float format", c.P.Pos(ce.Pos()), "strconv.FormatFloat is called with format %s, not 'f': exponent notation is not InfluxQL", types.ExprString(ce.Args[1]))
+					}
+				}
+				return true
+			})
+		}
+	}
+	r.AddSites(n + floats)
+	r.Floor(100, "String/RenderBytes methods of the influxql package")
+	if floats < 2 {
+		r.Fail("float printers", "", "expected at least 2 float formatting sites in the printers (number literal, set literal), found %d", floats)
+	}
+}
